@@ -281,6 +281,22 @@ CSRACCEPT = r"""
         let cert = got.signed_by(&ca, &ca_key).unwrap();
         assert!(contains(cert.der(), &spki_nonull), "RSA key without NULL parameters: the issued certificate's SubjectPublicKeyInfo differs from the request's");
     }
+    // (3c) parse-back returns the key algorithm of the generating key pair: the three RSA algorithms share one SubjectPublicKeyInfo form
+    {
+        let rsa_der = unhex("308204bc020100300d06092a864886f70d0101010500048204a6308204a202010002820101008d24702a7cc875ed578768736bddbca8c4e10201773554e3d1ffd9531cfc8c89e751b2180e97cd56488d89c373a056daebcd541212fcd6eee2426fade0f2d5fa0dbbb017f0b909dce3952d1c379c22da11363c9af4ef924431d1168dd1d033ed3cd00bf35a9dd89f37d9cb906c8519d2ceb6989a9e3410561f104894149525e040fba92ede711594ea362f2cf1fae3703e132fcaea8f88421071758aa67c0e19a401ebaae953849a303135b0da8752d071d9789180cb686a07a7a2a18347c2447f50a4a279cc5744edaa2c391d6e74e348d5c9a4c3d69854c40c0c2097d39ca2de4a8a0fd51e6012336ffbacacb9ef6743d040f6be82439f6ceddf55f0252f7102030100010282010001222305705192c2d86255b8218c5b04b6ea00a05ee2ee7ed2d39d5ce1bd746a7211519f0854f738e365c18eb079bfe0cba66f2fa2f7e548ef47adca656545cb177ba397199f7ec10791cdd62d6b234b817a6043b5464c34207b4795557338cb85a2bd09d3f733035a49352d80759426c172ad68866f301764f1f6473c20137905b70e76602556ce6c8e6b15c096e05e28231ea86c4d5b4a1a9bccfbb2ddabe6d3d7f685beaf50d8b16cfe91277d8957dff91886bbc34a66ab838cc5115183e07614f152d574dcaaee2f7f19a688cfc418980c4021a5267806c55e5b2a2444306ebebe8148081963129a5a7391e7a004e1cbdf5bb360ba7d0d2e2e929f0fde1d02818100be6e03afbe6c73f4b434a3309af78cfea71674210ac13ace5aa4e513fc9734abd8c9b62ecb3fa0d569d13ba455c5031db662d356b1662088ec936d4d8a2c8b41a214d791869fc1278723ec1f3bb156f80a6a9e3f9f14ab86f447125831b273f3f9565fd48f44905faf0e0d4b05bd5ba61349ec3f34dea43f72b25ceb6ebac84502818100bdbdd764512af6a0e2c6bce9e4254a05d617b5af006262a1da1637ed8e1b722d95530788e86a76eb31caa3058f00e707d4a6ed4f19cffaac3e9af10b728f432f26faa94c67b538b19965275779a7910306e45fb95a2194ab27fdd46e487d2eaaca99518035fa335694b7090d71618e090844956170dd3629c6cc1bbf34ae8b3d02818076b336c30e6ca5deeb914003a5251793086ddb97590fd76b175f5f9794c45fc59a8d296d83adb6c0308486abc9f6d3196b3db0c48231c9a7efe779a372b48f5d2afdd8dd52503463423ea70954f916dfe8064b7c16da188d37a9318b1df74185db6ef6af155ac4af8ffbaf578b4d5c5a69fd933056f14cea6bc138605c963b0d0281803d3de624b1f21d1286bfc0bff96c73bcf88244990c95b4e22ac31b2028cb010a67751a2c7d5fc7ac5830e0776dd5cbbc024e32b0625377c45a9ca60a9cda52c4085fc57f2cc6185b72786cbf563bd899528329c668aa08134a602a4dc245ed6720e7659fed4c297fdb964c6cb358da805dd3cd275b477b30f6c2707e41a1c8bd02818041e633b0f153b377511d04aff10e8411a8411360d440ac9a70ebcb489019443bd19900dca466c6d69aa425f8daee2ce2569a8550c077c74d98c55596936bb556f6fb84e0ec51310297a91e13abb73aeaf13eb1bf7e56ab7b33359f62f5244c5b23f4bbbd2a597b6e301fff4e8fba738423af775e9e82eeb32a83d3bfa75a26ee");
+        for alg in [&rcgen::PKCS_RSA_SHA256, &rcgen::PKCS_RSA_SHA384, &rcgen::PKCS_RSA_SHA512] {
+            let rsa = KeyPair::from_pkcs8_der_and_sign_algo(&rsa_der.clone().into(), alg).unwrap();
+            let der = base().serialize_request(&rsa).unwrap().der().to_vec();
+            let got = parse(&der).expect("an RSA request generated by rcgen is refused");
+            assert!(got.public_key.algorithm() == rsa.algorithm(), "parse-back of a request generated with {:?} returns the key algorithm {:?}", rsa.algorithm(), got.public_key.algorithm());
+            assert_eq!(got.public_key.der_bytes(), rsa.public_key_raw(), "embedded RSA key bits not carried over");
+        }
+        for alg in [&rcgen::PKCS_ECDSA_P256_SHA256, &rcgen::PKCS_ECDSA_P384_SHA384, &rcgen::PKCS_ED25519] {
+            let k = KeyPair::generate_for(alg).unwrap();
+            let got = parse(base().serialize_request(&k).unwrap().der()).expect("a request generated by rcgen is refused");
+            assert!(got.public_key.algorithm() == k.algorithm(), "parse-back of a request generated with {:?} returns the key algorithm {:?}", k.algorithm(), got.public_key.algorithm());
+        }
+    }
     // (4) anything rcgen cannot carry over is refused
     let mut p = base(); p.custom_extensions = vec![CustomExtension::from_oid_content(&[1, 2, 3, 4, 5], vec![5, 0])];
     if let Ok(r) = p.serialize_request(&key) { assert!(parse(r.der()).is_err(), "a request with an unknown extension is accepted"); }
